@@ -69,7 +69,8 @@ def main():
     for f in ('pegshim.py', 'convert_example.py'):
         shutil.copy(os.path.join(VERIF, 'tools', 'lib', f), lib)
     p = os.path.join(lib, 'convert_example.py')
-    open(p, 'w').write(open(p).read().replace('/tmp/wt/lib', lib))
+    text = open(p).read().replace('/tmp/wt/lib', lib)
+    open(p, 'w').write(text)
     for tag, pid, file, hint in json.load(open(tfile)):
         d = props[pid]
         wt = os.path.join(root, tag)
